@@ -674,6 +674,9 @@ def mpf_expint(n, x, prec, rnd=round_fast, gamma=False):
         elif n == 1:
             re = mpf_neg(mpf_ei(negx, prec, rnd))
         elif n > 0 and n < 3*wp:
+            # The two terms below are about x^(n-1)/(n-1)! times larger
+            # than their sum when x > n
+            wp += max(0, (n-1)*xmag - bitcount(ifac(n-1)) + 10)
             T1 = mpf_neg(mpf_ei(negx, wp))
             if gamma:
                 if n_orig & 1:
